@@ -454,7 +454,7 @@ fn git_inner(c: &Case, objs: &HashMap<Vec<u8>, (bool, Vec<u8>)>, dir: &std::path
 
 // ------------------------------------------------------------------------------------------- gen
 
-#[derive(Clone, Debug)]
+#[derive(Clone, Debug, PartialEq)]
 enum Node {
     Leaf(u32, Vec<u8>),
     Dir(Vec<(Vec<u8>, Node)>),
@@ -641,10 +641,20 @@ fn gen(rng: &mut Rng, n: usize) -> Vec<Case> {
                 rand_entries(rng, nb, depth)
             }
             1 => a.clone(),
-            _ => match mutate(rng, &Node::Dir(a.clone()), depth + 1) {
-                Node::Dir(es) => es,
-                x => vec![e(b"a", x)],
-            },
+            _ => {
+                // a related tree; try a few times to get one that differs
+                let mut b = a.clone();
+                for _ in 0..4 {
+                    b = match mutate(rng, &Node::Dir(a.clone()), depth + 1) {
+                        Node::Dir(es) => es,
+                        x => vec![e(b"a", x)],
+                    };
+                    if b != a {
+                        break;
+                    }
+                }
+                b
+            }
         };
         let (mut c, objs) = case_of(&a, &b, b"v");
         if rng.chance(1, 6) {
